@@ -256,7 +256,7 @@ func randKey(r *rand.Rand) []byte {
 }
 
 var valKinds = []string{"str", "str", "str", "int", "uint", "float", "bool", "dur", "time", "err", "bytes", "nil", "map", "struct",
-	"mok", "mfail", "mgarbage", "mempty", "ansi", "chan", "func", "tmok", "tmfail", "stringer", "nilerr", "niltm", "nilm"}
+	"mok", "mfail", "mgarbage", "mempty", "ansi", "chan", "func", "tmok", "tmfail", "stringer", "nilerr", "niltm", "nilm", "raw"}
 
 var floats = []float64{0, math.Copysign(0, -1), 1, -1.5, 1e21, 1e-7, math.MaxFloat64, -math.MaxFloat64, math.SmallestNonzeroFloat64, math.NaN(), math.Inf(1), math.Inf(-1), 0.1, 123456789.125}
 var ints = []int64{0, 1, -1, math.MaxInt64, math.MinInt64, 1 << 53, -(1 << 53) - 1, 42}
@@ -306,6 +306,12 @@ func RandVal(r *rand.Rand) *Val {
 		v.B = []byte(rawJSON[r.Intn(len(rawJSON))])
 	case "mgarbage":
 		v.B = []byte(garbage[r.Intn(len(garbage))])
+	case "raw":
+		if r.Intn(4) == 0 {
+			v.B = []byte(garbage[r.Intn(len(garbage))])
+		} else {
+			v.B = []byte(rawJSON[r.Intn(len(rawJSON))])
+		}
 	}
 	return v
 }
